@@ -212,6 +212,8 @@ def bytes_(**kwargs):
 
         @staticmethod
         def _encode(value):
+            if not value:
+                return b'\x00' * size
             return value.ljust(size, b'\x00')
 
         @staticmethod
